@@ -34,9 +34,14 @@ CORPUS = [
     "\u00e9", "\u2028", "\u2029", "\u0085", "\u0100", "\u07ff", "\u0800", "\uffff", "\U00010000", "\U0001f600", "\U0010ffff",
     "base64", "b64", "base64(", "base64(AA//)", "0x00", "TMPL_X", "#pragma version 1", " ", "  a  ", "a\\", 'a\\"', "\\" * 7, '"' * 7,
     "x" * 300, ("\\\"\n;/" * 40),
+    # backslash next to characters that an UNESCAPER might give a meaning (assembleConstants decodes the escaped text)
+    "it\\'s", "\\'", "'\\", "\\\\'", "'", "\\'\\", "C:\\dir\\'x'", "\\t", "\\r", "\\a", "\\b", "\\f", "\\v", "\\0", "\\1", "\\7", "\\101",
+    "\\377", "\\400", "\\08", "\\x4", "\\x41", "\\X41", "\\u0041", "\\u004", "\\U00000041", "\\N{DASH}", "\\N", "\\\n", "\\ ", "\\\\n",
+    "\\\\x41", "\\\"n", "a\\\\", "\\\\\\", "\\\\\\\\", "%s", "{}", "{0}", "$x", "\\N{LATIN SMALL LETTER A}",
 ]
 HAZ = ['"', "\\", "\n", "\r", "\t", "/", "//", ";", " ", "x", "n", "t", "r", "0", "a", "f", "F", "(", ")", "=", "#", "\x00", "\x1f",
-       "\x7f", "\x80", "\xff", "\u00e9", "\u2028", "\u0100", "\uffff", "\U0001f600", "\U0010ffff", "'", "base64", "b64(", "\\x", '\\"', "\\\\", "\x0b", "\x0c"]
+       "\x7f", "\x80", "\xff", "\u00e9", "\u2028", "\u0100", "\uffff", "\U0001f600", "\U0010ffff", "'", "base64", "b64(", "\\x", '\\"', "\\\\", "\x0b", "\x0c",
+       "\\'", "\\1", "\\0", "\\u0041", "\\N", "\\a", "1", "4", "u", "U", "N", "{", "}", "'"]
 
 
 # ---------------------------------------------------------------------------------------------
@@ -241,6 +246,13 @@ def lit_json(lit):
     return [j(x) for x in lit]
 
 
+def mode_from_what(what):
+    for m in Oracle.MODES:
+        if what.startswith("[%s]" % Oracle.mode_tag(m)):
+            return m
+    return (False, 1)
+
+
 # ---------------------------------------------------------------------------------------------
 # semantic oracle: real compileTeal text read by the extracted assembler grammar
 # ---------------------------------------------------------------------------------------------
@@ -252,6 +264,7 @@ class Oracle:
         self.checked = 0
         self.prevchar_differs = 0
         self.hist = {}
+        self.by_mode = {}
 
     def asm(self, lines, msel, cmd="asm"):
         head = " (msel" + "".join(" (%s %s)" % (sx_str(wire_bytes_of_text(k)), sx_hex(v)) for k, v in msel) + ")"
@@ -266,58 +279,106 @@ class Oracle:
                 stmts.append(st)
         return stmts
 
-    def check_group(self, lits, ctx="pop"):
-        """Compile Seq(Pop(l1) ... Pop(lk), Approve()) with the real compiler and compare the pushed
-        values, in order, with Python's own decoding of each literal.  Returns list of failing literals."""
+    # compile flavours: (assembleConstants, how many times each literal is used).  With assembleConstants a literal
+    # used once becomes pushbytes/pushint, used more often an entry of bytecblock/intcblock loaded by bytec*/intc*.
+    MODES = [(False, 1), (True, 1), (True, 2), (True, 3)]
+
+    @staticmethod
+    def mode_tag(mode):
+        return "plain" if not mode[0] else "assembleConstants=True, each literal used %d time%s" % (mode[1], "" if mode[1] == 1 else "s")
+
+    @staticmethod
+    def resolve(stmts, plain):
+        """statements of a program `#pragma; [intcblock]; [bytecblock]; (V pop)* V return` -> the list of values the
+        V instructions push (constant-block references resolved), or a str saying what is unreadable."""
+        if not stmts or stmts[0] != [S("pragma"), 6]:
+            return "no pragma line"
+        i = 1
+        blocks = {"intcblock": None, "bytecblock": None}
+        while i < len(stmts) and stmts[i][0] == S("instr") and stmts[i][1] in blocks:
+            if plain or blocks[stmts[i][1]] is not None:
+                return "unexpected %s" % stmts[i][1]
+            blocks[stmts[i][1]] = [imm[1] for imm in stmts[i][2:]]
+            kinds = set(imm[0] for imm in stmts[i][2:])
+            if kinds - {S("int") if stmts[i][1] == "intcblock" else S("bytes")}:
+                return "malformed %s" % stmts[i][1]
+            i += 1
+        body = stmts[i:]
+        if len(body) < 2 or len(body) % 2 != 0 or body[-1] != [S("instr"), "return"]:
+            return "unexpected program shape %r" % (body[-3:],)
+        vals = []
+        for k in range(0, len(body), 2):
+            g = body[k]
+            if k + 1 < len(body) - 1 and body[k + 1] != [S("instr"), "pop"]:
+                return "expected pop, found %r" % (body[k + 1],)
+            if g[0] != S("instr"):
+                return "unreadable statement %r" % (g,)
+            op = g[1]
+            direct = ("byte", "int", "addr", "method") if plain else ("byte", "int", "addr", "method", "pushbytes", "pushint")
+            if op in direct and len(g) == 3 and g[2][0] in (S("bytes"), S("int")):
+                if (g[2][0] == S("int")) != (op in ("int", "pushint")):
+                    return "unreadable statement %r" % (g,)
+                vals.append(("int" if g[2][0] == S("int") else "bytes", g[2][1]))
+                continue
+            m = re.fullmatch(r"(intc|bytec)(?:_([0-3]))?", op) if not plain else None
+            if m:
+                blk = blocks["intcblock" if m.group(1) == "intc" else "bytecblock"]
+                if m.group(2) is not None and len(g) == 2:
+                    idx = int(m.group(2))
+                elif m.group(2) is None and len(g) == 3 and g[2][0] == S("int"):
+                    idx = g[2][1]
+                else:
+                    return "unreadable statement %r" % (g,)
+                if blk is None or idx >= len(blk):
+                    return "%s %d refers outside the constant block" % (m.group(1), idx)
+                vals.append(("int" if m.group(1) == "intc" else "bytes", blk[idx]))
+                continue
+            return "unreadable statement %r" % (g,)
+        return vals
+
+    def check_group(self, lits, mode=None):
+        """Compile Seq(Pop(l1) x reps ... Pop(lk) x reps, Approve()) with the real compiler (with or without
+        assembleConstants) and compare the pushed values, in order, with Python's own decoding of each literal.
+        Returns the failing literals [(literal, what, teal)]."""
         import pyteal as pt
+        mode = mode or self.mode
+        asmc, reps = mode
         exps = [expected_value(l) for l in lits]
         assert all(e is not None for e in exps)
         msel = [(l[1], e[1]) for l, e in zip(lits, exps) if l[0] == "method"]
-        r = call_real(lambda: pt.compileTeal(pt.Seq(*[pt.Pop(build_real(l)) for l in lits], pt.Approve()),
-                                             pt.Mode.Application, version=6))
+        r = call_real(lambda: pt.compileTeal(pt.Seq(*[pt.Pop(build_real(l)) for l in lits for _ in range(reps)], pt.Approve()),
+                                             pt.Mode.Application, version=6, assembleConstants=asmc))
+        tag = self.mode_tag(mode)
         if r[0] != "ok":
             if len(lits) == 1:
-                return [(lits[0], "well-formed literal does not compile: %s" % (r[1],), None)]
-            return [x for l in lits for x in self.check_group([l])]
+                return [(lits[0], "[%s] well-formed literal does not compile: %s %s" % (tag, r[1], r[2] if len(r) > 2 else ""), None)]
+            return [x for l in lits for x in self.check_group([l], mode)]
         teal = r[1]
         stmts = self.read_program(teal, msel)
-        want = [[S("pragma"), 6]]
-        for e in exps:
-            want.append("LIT")
-            want.append([S("instr"), "pop"])
-        want += [[S("instr"), "int", [S("int"), 1]], [S("instr"), "return"]]
-        ok = len(stmts) == len(want)
-        if ok:
-            i = 0
-            for w, g in zip(want, stmts):
-                if w == "LIT":
-                    e = exps[i]
-                    i += 1
-                    if not (g[0] == S("instr") and len(g) == 3 and g[1] in ("byte", "int", "addr", "method")
-                            and g[2] == [S("bytes" if e[0] == "bytes" else "int"), e[1]]):
-                        ok = False
-                        break
-                elif w != g:
-                    ok = False
-                    break
+        got = self.resolve(stmts, not asmc)
+        want = [e for e in exps for _ in range(reps)] + [("int", 1)]
         self.checked += len(lits)
-        if ok:
+        if got == want:
             return []
         if len(lits) > 1:
             out = []
             for l in lits:
-                out += self.check_group([l])
+                out += self.check_group([l], mode)
             if not out:   # only the combination fails: report the group
-                out = [(lits[0], "literals read back correctly alone but not in sequence", teal)]
+                out = [(lits[0], "[%s] literals read back correctly alone but not in sequence" % tag, teal)]
             return out
-        got = [g for g in stmts if not (g == [S("instr"), "pop"])][1:-2] if len(stmts) >= 4 else stmts
-        return [(lits[0], "program text reads as %r, expected push of %r" % (got[:4], exps[0]), teal)]
+        shown = got if isinstance(got, str) else got[:-1][:3]
+        return [(lits[0], "[%s] program text reads as %r, expected push of %r" % (tag, shown, exps[0]), teal)]
 
-    def run(self, lits, group=16):
-        """lits: well-formed literals.  Collect failures (each: literal, what, teal)."""
+    mode = (False, 1)
+
+    def run(self, lits, group=16, modes=None):
+        """lits: well-formed literals.  Collect failures (each: literal, what, teal) under every compile flavour."""
         fails = []
-        for i in range(0, len(lits), group):
-            fails += self.check_group(lits[i:i + group])
+        for mode in (modes or self.MODES):
+            for i in range(0, len(lits), group):
+                fails += self.check_group(lits[i:i + group], mode)
+            self.by_mode[self.mode_tag(mode)] = self.by_mode.get(self.mode_tag(mode), 0) + len(lits)
         for l in lits:
             self.hist[l[0]] = self.hist.get(l[0], 0) + 1
         return fails
@@ -339,7 +400,7 @@ class Oracle:
         return bad
 
 
-def shrink(oracle, lit):
+def shrink(oracle, lit, mode):
     """Greedy minimisation of a failing Bytes(str) / MethodSignature / Bytes(base,text) literal: drop chunks and
     single characters while the literal stays well-formed and the oracle still fails."""
     if lit[0] not in ("utf8", "method", "base") or not isinstance(lit[-1], str):
@@ -348,7 +409,7 @@ def shrink(oracle, lit):
         l = lit[:-1] + (txt,)
         if expected_value(l) is None:
             return False
-        r = call_real(lambda: oracle.check_group([l]))
+        r = call_real(lambda: oracle.check_group([l], mode))
         return r[0] == "ok" and bool(r[1])
     txt = lit[-1]
     budget = 400
@@ -602,6 +663,8 @@ def main(argv):
 
     # semantic oracle on Bytes(str): real compileTeal text -> extracted assembler -> bytes, vs s.encode('utf-8')
     sem_strs = corpus + one + rng.sample(two, 6000 if thorough else 1500) + [chr(c) for c in rng.sample(cps, 3000 if thorough else 600)] + rnd
+    sem_strs += ["\\" + chr(c) for c in range(256)] + [chr(c) + "\\" for c in range(256)] + ["\\\\" + chr(c) for c in range(256)]
+    sem_strs += ["\\" + a + b for a in "'\"ntx0179uUN\\" for b in "'\"nt4017\\ "]
     sem_strs = [s for s in sem_strs if expected_value(("utf8", s)) is not None]
     fails = oracle.run([("utf8", s) for s in sem_strs])
     # what-if contexts on the REAL literal lines (trailing comment, following statement)
@@ -783,7 +846,11 @@ def main(argv):
         tally("method-%s" % ("unquotable" if unquotable else "separator" if any(c in s for c in "\x0b\x0c\x1c\x1d\x1e\x85\u2028\u2029") else "plain"))
         if rl[0] == "ok":
             # whatever is accepted must read back as ONE `method` instruction for exactly this text
-            f1 = oracle.check_group([("method", s)])
+            f1 = []
+            for md in Oracle.MODES:
+                f1 = oracle.check_group([("method", s)], md)
+                if f1:
+                    break
             if f1:
                 fails += f1
             else:
@@ -837,15 +904,17 @@ def main(argv):
         if key in seen or len(seen) >= 8:
             continue
         seen.add(key)
-        small = shrink(oracle, lit) if teal is not None else lit
+        mode = mode_from_what(what)
+        small = shrink(oracle, lit, mode) if teal is not None else lit
         if small != lit:
-            r2 = call_real(lambda: oracle.check_group([small]))
+            r2 = call_real(lambda: oracle.check_group([small], mode))
             if r2[0] == "ok" and r2[1]:
                 lit, what, teal = r2[1][0]
-        if repr(lit) in seen:
+        if (repr(lit), mode) in seen:
             continue
-        seen.add(repr(lit))
-        ck.violation("%s: %s" % (lit[0], what), {"kind": "semantic", "literal": lit_json(lit), "what": what, "teal": teal})
+        seen.add((repr(lit), mode))
+        ck.violation("%s: %s" % (lit[0], what), {"kind": "semantic", "literal": lit_json(lit), "what": what, "teal": teal,
+                                                 "mode": {"assembleConstants": mode[0], "uses": mode[1]}})
     if mismatch and not fails:
         # correspondence broken but no literal is read back wrongly: run the oracle on the disagreeing inputs
         directed = []
@@ -868,6 +937,7 @@ def main(argv):
     ck.coverage["timing_s"] = timing
     ck.coverage["oracle_literals_read_back"] = oracle.checked
     ck.coverage["oracle_by_kind"] = oracle.hist
+    ck.coverage["oracle_by_compile_flavour"] = oracle.by_mode
     ck.coverage["prevchar_variant_differs_on_lines"] = oracle.prevchar_differs
     ck.coverage["disagreements_checked"] = len(mismatch) + len(fails)
     ck.coverage["known_class_members"] = {"addr-checksum-unchecked": len(addr_known)}
@@ -916,7 +986,12 @@ def replay(path, model, oracle):
     exp = expected_value(lit)
     print("specified value:", exp)
     if rl[0] == "ok" and exp is not None:
-        f = oracle.check_group([lit])
+        f = []
+        md = d.get("mode")
+        for m in ([(md["assembleConstants"], md["uses"])] if md else Oracle.MODES):
+            f = oracle.check_group([lit], m)
+            if f:
+                break
         print("assembler-grammar oracle:", "reads back correctly" if not f else f[0][1])
         return 1 if f else 0
     if (rl[0] == "ok") != (exp is not None):
